@@ -119,7 +119,7 @@ impl Lfsr {
     }
     /// Clock the LFSR.
     fn next(&mut self, i: u8) -> u8 {
-        assert!(i <= 1);
+        // Input is a stream of bits, one per byte. Don't crash on bad input.
         let i = i & 1;
         let ret = 1 & (i ^ self.shift_reg as u8);
         self.shift_reg = (self.shift_reg >> 1) ^ (self.mask * i as u64);
